@@ -27,6 +27,30 @@ def generate(rng, tier):
         line = "%s %s %s" % (op, md, p) + ("" if op == "toutc" else " %d %d" % z)
         cases.append(Case([line], ["op:" + op, "mode:" + md, "rep:" + p[0], "tod:" + tp_form(p)[1]],
                           md=md, p=p, z="0 0" if op == "toutc" else "%d %d" % z, fam="Z", fl="/" in p or tp_form(p)[1] != "S"))
+    # re-zonings that carry the local date across the end of a month or year, in the years where the leap rule
+    # matters (century years, their neighbours, year 0): the carried date must be a real date of the calendar
+    from props.common import month_len, year_len, weeks_in
+    for i in range(800 if tier == "quick" else 8000):
+        md = MODES[i % 4]
+        y = rng.choice([1900, 2100, 2000, 2400, 1896, 1904, 2096, 2104, 0, -1, 4, 100, 400, 1999, 2001, 2020, 2023, 9999, 1])
+        kind = rng.choice("CCOW")
+        fwd = rng.random() < 0.5
+        if kind == "C":
+            mo = rng.choice([2, 2, 2, 12, 1, 3, rng.randint(1, 12)])
+            d = month_len(md, y, mo) if fwd else 1
+            date = "C %d %d %d" % (y, mo, d)
+        elif kind == "O":
+            doy = rng.choice([year_len(md, y), 59, 60]) if fwd else rng.choice([1, 60, 61])
+            date = "O %d %d" % (y, min(doy, year_len(md, y)))
+        else:
+            date = "W %d %d 7" % (y, weeks_in(md, y)) if fwd else "W %d 1 1" % y
+        hh = rng.choice([22, 23, 23]) if fwd else rng.choice([0, 0, 1])
+        z = rand_zone(rng) if rng.random() < 0.3 else (rng.choice([0, 1, -5]), 0)
+        dz = rng.choice([1, 2, 3, 5]) * (1 if fwd else -1)
+        z2 = (z[0] + dz, z[1]) if -99 < z[0] + dz < 99 and ((z[0] + dz) * z[1] >= 0) else (z[0], z[1])
+        p = "%s S %d %d %d %d %d" % (date, hh, rng.choice([0, 30, 59]), rng.choice([0, 59]), z[0], z[1])
+        cases.append(Case(["tz %s %s %d %d" % (md, p, z2[0], z2[1])], ["op:tz", "date-carry", "mode:" + md, "rep:" + p[0]],
+                          md=md, p=p, z="%d %d" % z2, fam="Z", fl=False))
     if tier == "thorough":
         for i in range(60):
             md = MODES[i % 4]
